@@ -131,8 +131,12 @@ def run_case(rng, idx, tier, lane, ctx):
         cls.append("zero-bound")
 
     def refcost(theta):
-        r = LC.ref_solution(c, theta=LC.full_theta(c, list(theta)), crosscheck=False, amplification=False)
+        # cross-checked by a second method: where two integrators disagree (a parameter point at which the solution runs into a pole or is
+        # extremely sensitive - thorough seed 1, zero-bound case 504: pygom's cost 2.049 against 1.463 from a single reference run) the
+        # reference decides nothing
+        r = LC.ref_solution(c, theta=LC.full_theta(c, list(theta)), crosscheck=True, amplification=False)
         if not r.ok:
+            counters["reference_unreliable_at_point"] = counters.get("reference_unreliable_at_point", 0) + 1
             return None, None
         yhat = r.x[:, c.obs_idx]
         if c.kind in ("Poisson", "Gamma") and np.min(yhat) <= 1e-9:
